@@ -160,6 +160,58 @@ def replay_schedule(ci, schedule):
     return bool(bad), bad
 
 
+def repeated_loads(loads=40):
+    """one metamodel loads many models one after the other (each dropped and
+    collected before the next, so object addresses are reused), the first and
+    the third reference of every list being postponed once: state kept between
+    loads on the metamodel / parser blueprint must not influence list order"""
+    import gc
+    from textx import metamodel_from_str
+    from textx.scoping import Postponed
+    from textx.scoping.providers import PlainName
+    mm = metamodel_from_str(GRAMMAR)
+    default = PlainName()
+    state = {'seen': set()}
+
+    def provider(obj, attr, obj_ref):
+        key = obj_ref.position
+        first_time = key not in state['seen']
+        state['seen'].add(key)
+        if first_time and key in state['postpone']:
+            return Postponed()
+        return default(obj, attr, obj_ref)
+    mm.register_scope_providers({'*.*': provider})
+    names = ['t%d' % i for i in range(1, 7)]
+    for k in range(loads):
+        order = names[k % 6:] + names[:k % 6]
+        if k % 2:
+            order.reverse()
+        text = ' '.join('obj %s' % n for n in names) + ' user u refs %s : more %s ;' % (
+            ' '.join(order[:4]), ', '.join(order[2:]))
+        # positions of the reference tokens: postpone the 1st and 3rd of each list
+        base = text.index(' refs ') + 6
+        pos = []
+        p = base
+        for n in order[:4]:
+            pos.append(p)
+            p += len(n) + 1
+        base2 = text.index(' more ') + 6
+        p = base2
+        pos2 = []
+        for n in order[2:]:
+            pos2.append(p)
+            p += len(n) + 2
+        state['seen'] = set()
+        state['postpone'] = {pos[0], pos[2], pos2[0], pos2[2]}
+        m = mm.model_from_str(text)
+        got = ([o.name for o in m.users[0].refs], [o.name for o in m.users[0].more])
+        if got != (order[:4], order[2:]):
+            return 'load #%d of the same metamodel: lists %s, textual order %s' % (k + 1, got, (order[:4], order[2:]))
+        del m
+        gc.collect()
+    return None
+
+
 def main():
     import textx.model as M
     chk = Check(PROP, 'exploration')
@@ -198,6 +250,11 @@ def main():
                 break
         chk.sample({'case': r['case'], 'schedules_explored': r['paths'], 'loaded': r['ok'],
                     'failed_to_resolve': r['fail'], 'out_of_order': r.get('nbad', 0)})
+    rl = repeated_loads()
+    paths += 40
+    if rl:
+        chk.violation(rl, {'repeated_loads': True})
+    chk.cov['bounds']['repeated_loads'] = '40 loads by one metamodel, two lists, 1st and 3rd reference of each postponed once (concrete)'
     chk.cov['paths_explored'] = paths
     chk.cov['evaluations'] = paths
     chk.cov['distinct_nontrivial'] = paths
@@ -207,4 +264,7 @@ def main():
 
 
 def replay(data):
+    if data.get('repeated_loads'):
+        r = repeated_loads()
+        return bool(r), r
     return replay_schedule(data['case'], data['schedule'])
